@@ -5,9 +5,10 @@
 (*                                                                         *)
 (*  (a) spatial average: per frame, mean over a particle and its listed    *)
 (*      neighbours; the neighbour file is consumed frame by frame through  *)
-(*      one handle (cursor).                                               *)
+(*      one handle (cursor); rows of a frame may come in any order.        *)
 (*  (b) Gaussian blurring: full Cartesian grid of ng[k] equally spaced     *)
-(*      points spanning the box bounds, enumerated by a loop whose step    *)
+(*      points spanning the box bounds OF THE FRAME (every frame has its   *)
+(*      own bounds and cell), enumerated by a loop whose step              *)
 (*      Visit writes grid point pt into flat slot Flat(ng, pt); value of a *)
 (*      slot = sum over particles within the cut-off (minimum image) of    *)
 (*      G(d) * property, G(d) = exp(-d^2 / 2 sigma^2) / sqrt(2 pi sigma^2).*)
@@ -55,9 +56,19 @@ SpatialNumW(vals, nb, nmax, i, c) ==
 SpatialDenW(vals, nb, nmax, i) ==
   SumSeq([j \in 1..Len(vals) |-> Weight(nb, nmax, i, j)])
 
+\* The neighbour file as the routine receives it: per frame a sequence of rows
+\* <<id, n1, n2, ...>> (the id column, then the listed ids; the count column of the
+\* file is the number of listed ids), one row per particle in ANY order.  The reader
+\* (property C05) files every row under the id written in its first column.
+CgIsPerm(order, n)  == Len(order) = n /\ {order[k] : k \in 1..n} = 1..n
+CgRows(nb, order)   == [k \in 1..Len(nb) |-> <<order[k]>> \o nb[order[k]]]
+CgOfRows(rows)      == [i \in 1..Len(rows) |->
+                          LET k == CHOOSE k \in 1..Len(rows) : rows[k][1] = i IN SubSeq(rows[k], 2, Len(rows[k]))]
+CgPermByKey(K(_), n) == LET srt == SortedSeq({K(i) * 1024 + i : i \in 1..n}) IN [k \in 1..n |-> srt[k] % 1024]
+
 \* the handle: frame n of the property is averaged with the frame of the
-\* neighbour file under the cursor, and the cursor moves on by one frame
-SpatialStep(file, cursor, vals, nmax) == SpatialAvgFrame(vals, file[cursor + 1], nmax)
+\* neighbour file (rows) under the cursor, and the cursor moves on by one frame
+SpatialStep(file, cursor, vals, nmax) == SpatialAvgFrame(vals, CgOfRows(file[cursor + 1]), nmax)
 
 (***************************************************************************)
 (* (b) the grid.  ng : numbers of points per axis (length 2 or 3);         *)
